@@ -21,6 +21,8 @@ DEFAULT_PROFILE = {
     "idle_prob": 0.08,
     "dropdisp_prob": 0.03,
     "max_phase": 8,
+    "stop_prob": 0.03,          # LoopSignal::stop() from a callback / between dispatches
+    "idle_burst_prob": 0.0,     # several idles queued at once, idles that insert idles
 }
 
 
@@ -172,6 +174,8 @@ class Gen:
             return "idle %d" % i
         if self.idles and self.r.random() < 0.3:
             return "cancelidle %d" % self.r.choice(self.idles)
+        if self.r.random() < self.p["stop_prob"] * 10:
+            return "stopsignal"
         return None
 
     def script_actions(self, h, depth=0):
@@ -229,6 +233,21 @@ class Gen:
                     body.append("T")
                 if self.r.random() < self.p["epoll_prob"]:
                     body.append("E")
+            elif k < 0.3 + self.p["idle_burst_prob"]:
+                # a burst of idles, some of which insert further idles from their callbacks
+                for _ in range(self.r.randint(4, 9)):
+                    i = self.next_i
+                    self.next_i += 1
+                    self.idles.append(i)
+                    if self.r.random() < 0.5:
+                        j = self.next_i
+                        self.next_i += 1
+                        self.idles.append(j)
+                        acts = ["idle %d" % j]
+                        if self.r.random() < 0.3:
+                            acts.append("cancelidle %d" % self.r.choice(self.idles))
+                        self.scripts.append(("S", IDLE_BASE + i, 0, 0, acts))
+                    body.append("C idle %d" % i)
             elif k < 0.6:
                 a = self.cause_action()
                 if a:
